@@ -800,13 +800,15 @@ class ArgumentParser(ParserDeprecations, ActionsContainer, ArgumentLinking, argp
             dump_kwargs = {"skip_validation": skip_validation, "skip_none": skip_none}
             self._dump_cleanup_actions(cfg, self._actions, dump_kwargs)
 
+            # dict values of arguments are not groups: skip_default must keep or drop them as a whole
+            dict_values = {k for k, v in cfg.items() if isinstance(v, dict) and not is_subclass_spec(v)}
             cfg_dict = cfg.as_dict()
 
             if skip_default:
                 defaults = self.get_defaults(skip_validation=True)
                 ActionLink.strip_link_target_keys(self, defaults)
                 self._dump_cleanup_actions(defaults, self._actions, {"skip_validation": True, "skip_none": skip_none})
-                self._dump_delete_default_entries(cfg_dict, defaults.as_dict())
+                self._dump_delete_default_entries(cfg_dict, defaults.as_dict(), dict_values)
 
         with parser_context(parent_parser=self):
             return dump_using_format(self, cfg_dict, "yaml_comments" if yaml_comments else format)
@@ -838,7 +840,7 @@ class ArgumentParser(ParserDeprecations, ActionsContainer, ArgumentLinking, argp
                             value = action.serialize(value, dump_kwargs=dump_kwargs)
                     cfg.update(value, action_dest)
 
-    def _dump_delete_default_entries(self, subcfg, subdefaults):
+    def _dump_delete_default_entries(self, subcfg, subdefaults, dict_values=frozenset(), prefix=""):
         for key in list(subcfg.keys()):
             if key in subdefaults:
                 val = subcfg[key]
@@ -852,10 +854,11 @@ class ArgumentParser(ParserDeprecations, ActionsContainer, ArgumentLinking, argp
                     class_object_val = val
                     val = val.get("init_args")
                     default = default.get("init_args")
+                subprefix = prefix + key + (".init_args." if class_object_val else ".")
                 if val == default:
                     del subcfg[key]
-                elif isinstance(val, dict) and isinstance(default, dict):
-                    self._dump_delete_default_entries(val, default)
+                elif isinstance(val, dict) and isinstance(default, dict) and prefix + key not in dict_values:
+                    self._dump_delete_default_entries(val, default, dict_values, subprefix)
                     if class_object_val and class_object_val.get("init_args") == {}:
                         del class_object_val["init_args"]
 
